@@ -17,7 +17,9 @@ var (
 	poolSub    = []string{"user-1", "alice", "svc", "bob"}
 	poolAud    = []string{"aud-1", "api.example.com", "aud-2", "bookstore"}
 	poolAzp    = []string{"client-1", "web", "client-2"}
-	poolClaimK = []string{"[group]", "[groups]", "[realm][role]", "[scope]", "[a][b][c]"}
+	poolClaimK = []string{"[group]", "[groups]", "[realm][role]", "[scope]", "[a][b][c]", "[tenant]", "[org][unit]", "[roles]", "[x-y]", "[email]"}
+	// validator-accepted keys that reach the fallbacks / error path of extractNameInNestedBrackets
+	oddClaimK = []string{"[a[b]]", ".x[a]", "[a]b[c]", "[a][b", "x[a][b]"}
 	poolClaimV = []string{"admin", "dev", "ops", "read", "write"}
 )
 
@@ -57,6 +59,9 @@ func (g *genCtx) phase3When() (string, func() string) {
 		return "request.auth.presenter", func() string { b := wire.Pick(r, poolAzp); g.note("azp", b); return g.form(b, false) }
 	case 3, 4:
 		k := wire.Pick(r, poolClaimK)
+		if r.Chance(1, 6) {
+			k = wire.Pick(r, oddClaimK)
+		}
 		g.note("claimk", k)
 		return "request.auth.claims" + k, func() string { b := wire.Pick(r, poolClaimV); g.note("claimv", b); return g.form(b, false) }
 	default:
